@@ -216,13 +216,20 @@ def make_asserts(n):
                       tags={"assert", "range"}))
     ents.append(Entry("decl_bool_priv", lambda k: [k.B("x")], ("x",), ref=lambda k: (k.v("x") == 0) | (k.v("x") == 1),
                       dom=lambda k: fits(k.v("x"), k.n), tags={"assert", "decl", "bool"}))
-    ents.append(Entry("decl_bool_pub", lambda k: [k.bo.PubValBool(k.v("x"))], ("x",),
+    ents.append(Entry("decl_bool_pub", lambda k: _decl_pub(k), ("x",),
                       ref=lambda k: (k.v("x") == 0) | (k.v("x") == 1),
                       dom=lambda k: fits(k.v("x"), k.n), tags={"assert", "decl", "bool"}))
     ents.append(Entry("decl_bool_lc", lambda k: [k.bo.LinCombBool(k.S("x"))], ("x",),
                       ref=lambda k: (k.v("x") == 0) | (k.v("x") == 1),
                       dom=lambda k: fits(k.v("x"), k.n), tags={"assert", "decl", "bool"}))
     return ents
+
+
+def _decl_pub(k):
+    i = k._next("pub")
+    b = k.bo.PubValBool(k.v("x"))
+    k._rec("x", "pub", i)
+    return [b]
 
 
 def _assert2(k, meth):
